@@ -453,6 +453,7 @@ Outcome WSession::call(const Op &op) {
     if (g_yield_hook) g_yield_hook(Y_CALL);
     bool was_latched = inited && err() != 0;
     ncalls++;
+    uint64_t gate0 = g_gate_hits.load();
     Bytes before;
     if (was_latched && cap) before.assign(dblk.p, dblk.p + cap);
     Block arg;
@@ -505,6 +506,7 @@ Outcome WSession::call(const Op &op) {
     }
     block_free(arg);
     slot_release();
+    if (g_gate_hits.load() != gate0) sink.fail("C17.allocator_call", fmt("%s reached %s while inside the library", name, g_gate_last ? g_gate_last : "an allocator function"));
     if (o.skipped) return o;
     bump(cnt, std::string("api.") + name);
     o.err = err(); o.used = counter();
